@@ -3,7 +3,7 @@ consistency of matrix, loads, pointwise evaluation, problem data and sign
 conventions (DESIGN.md E2, E3, E7)."""
 import ast
 
-from .. import causal, kernels, panels, signs, indexing
+from .. import causal, kernels, panels, signs, indexing, effects
 from .. import problems_cert as pc
 from ..absint import text
 from ..cas import run_tasks
@@ -61,6 +61,7 @@ def run(prog, report, tier):
     causal.run_sites(prog, report, which=('sound', 'complete'),
                      files={kernels.SL})
     panels.check_straight(prog, report)
+    effects.check_cache(prog, report)
     panels.check_integrate(prog, report, rules=('partition', 'precond'))
     panels.check_exact_splitter(prog, report)
     panels.check_binding(prog, report)
